@@ -1,10 +1,42 @@
 package main
 
-import "github.com/shaardie/clemens/pkg/search"
+import (
+	"fmt"
+
+	"github.com/shaardie/clemens/pkg/search"
+)
 
 func init() {
 	sections = append(sections, func() {
-		sb.WriteString("(* pkg/search *)\n")
+		sb.WriteString("\n(* pkg/search *)\n")
 		defZ("maxTimeInMs", int64(search.VerifMaxTimeInMs()))
+		c := search.VerifConsts()
+		defZ("se_widen_window", int64(c.WidenWindow))
+		defN("se_max_depth", uint64(c.MaxDepth))
+		defN("se_quiescence_max_depth", uint64(c.QuiescenceMaxDepth))
+		defN("se_futility_depth", uint64(c.FutilityDepth))
+		defZList("se_futility_margin", z16s(c.FutilityMargin))
+		defZ("se_static_null_margin", int64(c.StaticNullMargin))
+		defN("se_history_size", uint64(c.HistorySize))
+		defN("mo_pv_score", uint64(c.PVMoveScore))
+		defN("mo_tt_score", uint64(c.TTMoveScore))
+		defN("mo_killer_score", uint64(c.KillerMoveScore))
+		defN("mo_promotion_score", uint64(c.PromotionScore))
+		defN("mo_counter_bonus", uint64(c.CounterMoveBonus))
+		sb.WriteString("Definition mo_mvv_lva : list (list N) := [")
+		for v := 0; v < 5; v++ {
+			if v > 0 {
+				sb.WriteString("; ")
+			}
+			sb.WriteString("[")
+			for a := 0; a < 6; a++ {
+				if a > 0 {
+					sb.WriteString("; ")
+				}
+				fmt.Fprintf(&sb, "%d", c.MvvLva[v][a])
+			}
+			sb.WriteString("]")
+		}
+		sb.WriteString("]%N.\n")
 	})
 }
